@@ -690,6 +690,12 @@ def run_check(chk, argv):
         for c, m, i in zip(cases, mouts, iouts):
             print('case : %s\nmodel: %s\nimpl : %s' % (c, m, i))
         dis = compare(chk, cases, mouts, iouts)
+        if 'LV_DEBUG_LEVEL' in (payload.get('env') or {}):
+            # the same rule as the debug-level pass below: an ASSERT that is fatal by design is no disagreement
+            for d in dis:
+                if assert_by_design(d['impl']):
+                    print('BY-DESIGN %s: %s' % (d['case'], d['impl']))
+            dis = [d for d in dis if not assert_by_design(d['impl'])]
         for d in dis:
             print('DISAGREE[%s] %s' % (d['level'], d['msg']))
         return 1 if dis else 0
